@@ -10,7 +10,7 @@
    What is still partial: UTF-8 and date-time leaves enter the class value by value (their decoders are
    run by `canon`), not by a closed-form family lemma. *)
 From Zvt Require Import Base Length LengthProps Cp437 Encoding EncodingProps Codec CodecFrame CodecRoundtrip
-  CodecTags CodecFields CodecCanon CanonClass CanonRoundtrip CanonRun CanonShipped.
+  CodecTags CodecFields CodecCanon CanonClass CanonRoundtrip CanonRun CanonShipped Lookup.
 Open Scope N_scope.
 
 (* commands (packets with a control field) *)
@@ -64,11 +64,15 @@ Theorem C01_shipped_layouts_in_class : outside true = [] /\ outside false = [].
 Proof. exact shipped_in_class. Qed.
 
 (* non-vacuity on a shipped packet: an Authorization with amount 10.00, currency 978, payment type 0x40 and
-   the additional text "Hi" is in the class; the bytes are the ones the ZVT specification gives *)
+   the additional text "Hi" is in the class (the bytes themselves are C03's business, not C01's) *)
 Example C01_ex_authorization :
-  exists b, run_canon "zvt::packets::Authorization" b = Some 1 /\
-    b = [6; 1; 18; 4; 0; 0; 0; 0; 16; 0; 73; 9; 120; 25; 64; 60; 240; 240; 242; 72; 105].
-Proof. eexists. split; [|reflexivity]. vm_compute. reflexivity. Qed.
+  let v := VRec [VSome (VInt 1000); VSome (VInt 978); VSome (VInt 64); VNone; VNone; VNone; VNone; VNone; VNone;
+                 VSome (VStr [72; 105]); VNone; VNone] in
+  match run_enc "zvt::packets::Authorization" v with
+  | Some (Ok b) => run_canon "zvt::packets::Authorization" b = Some 1 /\ (10 <= length b)%nat
+  | _ => False
+  end.
+Proof. vm_compute. split; [reflexivity|]. repeat constructor. Qed.
 
 (* one <tag><length><data> frame, for every delimiting length style, every representable tag, every
    inner codec: what the inner decoder reads back completely, the frame reads back completely, and
